@@ -37,7 +37,10 @@ Inductive call :=
 | ExplEnc (T : N) (e : option nat) (v : N)            (* e(typelib.marshal(v, t=T)) *)
 | ApiDec (T : N) (b : N) (d : option nat)             (* typelib.decode(T, b, decoder=d) *)
 | CodecDec (T : N) (e d : option nat) (b : N)         (* typelib.codec(T, encoder=e, decoder=d).decode(b) *)
-| ExplDec (T : N) (d : option nat) (b : N).           (* typelib.unmarshal(T, d(b)) *)
+| ExplDec (T : N) (d : option nat) (b : N)            (* typelib.unmarshal(T, d(b)) *)
+(* typelib.codec(T, marshaller=m, unmarshaller=u, encoder=e, decoder=d).encode(v) / .decode(b) *)
+| CodecEncM (T : N) (m u : nat) (e d : option nat) (v : N)
+| CodecDecM (T : N) (m u : nat) (e d : option nat) (b : N).
 
 Definition run_call (w : world) (c : call) : res N :=
   let mm := mk_of (w_mar w) in let mu := mk_of (w_unm w) in
@@ -49,6 +52,12 @@ Definition run_call (w : world) (c : call) : res N :=
   | ApiDec T b d => api_decode N N mu isb loads T b (user w d)
   | CodecDec T e d b => codec_decode N N mm mu isb dumps loads T (user w e) (user w d) b
   | ExplDec T d b => explicit_decode N N mu loads T (user w d) b
+  | CodecEncM T m u e d v =>
+      bind (codec N N mm mu isb dumps loads T (user w (Some m)) (user w (Some u)) (user w e) (user w d))
+           (fun c => Codec_encode N c v)
+  | CodecDecM T m u e d b =>
+      bind (codec N N mm mu isb dumps loads T (user w (Some m)) (user w (Some u)) (user w e) (user w d))
+           (fun c => Codec_decode N c b)
   end.
 (* the same with api.py as pinned (used to show what the unrepaired tree is expected to do) *)
 Definition run_call_pinned (w : world) (c : call) : res N :=
